@@ -132,7 +132,9 @@ def Cases(tier):
   return cases + semrun.Reproducers(PROP)
 
 
-REQUIRED = ['fam_ordered_aggregate', 'fam_two_rules_denotation',
+REQUIRED = ['fam_wide_order_marker', 'fam_wide_order_string10', 'fam_marker_desc',
+            'fam_union_top_k_two_rules', 'fam_union_top_k_disjunction',
+            'fam_ordered_aggregate', 'fam_two_rules_denotation',
             'fam_disjunction_denotation', 'fam_functor_ordered',
             'directed_limit_zero_reader', 'limit_zero_without_order', 'denotation_form', 'annotation_form', 'limit_none', 'limit_zero',
             'limit_pos', 'consumer', 'plan_with', 'plan_nowith',
